@@ -1,7 +1,7 @@
 (* C02 — Watermark discipline: no early firing, no on-time loss, bounded late updates.
    Statements only. Tumbling window; the sliding and session windows share Model/Watermark.v. *)
 From Coq Require Import Lia.
-From SV Require Import Model.Session Model.Tumbling Model.Sliding Proofs.TumblingProofs Proofs.TumblingComplete Proofs.TumblingWatermark Proofs.WindowsWatermark Proofs.QuietProofs.
+From SV Require Import Model.Session Model.Tumbling Model.Sliding Proofs.TumblingProofs Proofs.TumblingComplete Proofs.TumblingWatermark Proofs.WindowsWatermark Proofs.QuietProofs Proofs.TumblingIdle.
 
 (* every watermark the trigger goroutine ever receives is (timestamp of an ingested, not
    far-future event) - MAXOUTOFORDERNESS, and a window [s,e) fires for the first time only after
@@ -76,6 +76,18 @@ Theorem C02_no_early_delivery_session : forall c h s tr,
      exists id ts key now, In (NAdd id ts key now) h /\ (now + nooo c + day <? ts) = false /\ en + nooo c <= ts).
 Proof. exact session_no_early_delivery. Qed.
 Print Assumptions C02_no_early_delivery_session.
+
+(* ... and with the idle-source mechanism on (any IDLETIMEOUT): every received watermark is (an accepted timestamp) - ooo
+   or (the clock of a tick) - ooo for a tick at which more than the idle timeout had passed since some event arrived;
+   a first firing of [s,e) needs an accepted event with ts >= e + ooo, or such a tick with clock >= e + ooo *)
+Theorem C02_no_early_fire_or_idle : forall c h s tr,
+  run c st0 h = (s, tr) ->
+  (forall x, In (EvDB x) tr -> accepted_wm c h x \/ idle_wm c h x) /\
+  (forall b, In (EvBatch b) tr -> b_late b = false ->
+     (exists id ts now, In (Add id ts now) h /\ (now + ooo c + day <? ts) = false /\ b_end b + ooo c <= ts) \/
+     (0 < idle c /\ exists now l, In (Tick now) h /\ arrival h l /\ idle c < now - l /\ b_end b + ooo c <= now)).
+Proof. exact tumbling_no_early_fire_idle. Qed.
+Print Assumptions C02_no_early_fire_or_idle.
 
 (* the periodic tick re-sends a watermark whose send was skipped because the channel (capacity 100) was full *)
 Theorem C02_tick_resends : forall ooo idle now w m c,
